@@ -65,3 +65,13 @@ _stub("C17", "Decides structural clauses of C17: a uniqueness check keyed on the
              "on any resolved call path; failures propagate to the exit status (R09d) and font files are written last (R09e). Does "
              "NOT decide that picosvg rejects every unsupported construct, nor what ninja does with the exit status.",
       "picosvg's own input validation; exit-status handling inside ninja")
+
+_stub("C12", "Decides structural clauses of C12 on maximum_color's ninja graph and workers: rule variables are bound and path "
+             "variables declared; stages are threaded (keep_glyph_names first, each stage consumes and re-binds the previous output, "
+             "the new table is glued onto the font handed to the stage, copy vs strip_glyph_names selected by keep_glyph_names, "
+             "--bitmaps/--colr_version reach their edges); gid-named files agree between the driver's declared outputs, both extractors "
+             "and the glyphmap's gid lookup in the source font's order; the mergeable config copies upem/ascender/descender from the "
+             "same head/OS/2 fields its siblings read, width 0, names kept; donation copies referenced glyphs, fixes glyph order once, "
+             "reorders before grafting SVG, rejects missing names for CBDT. Does NOT decide table-by-table equality of the output font "
+             "or rendering agreement between colour tables.",
+      "binary equality of retained tables; rendering agreement between COLR/SVG/CBDT")
